@@ -62,7 +62,7 @@ func startServer(c *Ctx, binEnv string, extraEnv ...string) (*server, error) {
 		}
 		lf.Close()
 		go func() { s.cmd.Wait(); close(s.done) }()
-		s.client = &http.Client{Timeout: 60 * time.Second, Transport: &http.Transport{MaxConnsPerHost: 24, MaxIdleConnsPerHost: 24, IdleConnTimeout: 20 * time.Second}}
+		s.client = &http.Client{Timeout: 60 * time.Second, Transport: &http.Transport{MaxConnsPerHost: 24, MaxIdleConnsPerHost: 24, IdleConnTimeout: 20 * time.Second, ExpectContinueTimeout: 2 * time.Second}}
 		ok := false
 		for i := 0; i < 100; i++ {
 			select {
@@ -142,15 +142,37 @@ type httpResult struct {
 
 // do issues one request; on a connection the server closed (it recycles connections
 // after 100 requests) the request is retried once on a fresh connection.
+// framing variants for request bodies
+const (
+	framingPlain     = ""
+	framingChunked   = "chunked"    // Transfer-Encoding: chunked (no Content-Length)
+	framingExpect100 = "expect-100" // Expect: 100-continue
+)
+
+type unsizedReader struct{ r io.Reader }
+
+func (u unsizedReader) Read(p []byte) (int, error) { return u.r.Read(p) }
+
 func (s *server) do(method, path string, body []byte, fresh bool, timeout time.Duration) httpResult {
+	return s.doFramed(method, path, body, fresh, timeout, framingPlain)
+}
+
+func (s *server) doFramed(method, path string, body []byte, fresh bool, timeout time.Duration, framing string) httpResult {
 	var last httpResult
 	busy := 0
 	for attempt := 0; attempt < 2; attempt++ {
 		ctx, cancel := context.WithTimeout(context.Background(), timeout)
-		req, err := http.NewRequestWithContext(ctx, method, "http://"+s.addr+path, bytes.NewReader(body))
+		var rd io.Reader = bytes.NewReader(body)
+		if framing == framingChunked && body != nil {
+			rd = unsizedReader{bytes.NewReader(body)} // length unknown to net/http => chunked transfer encoding
+		}
+		req, err := http.NewRequestWithContext(ctx, method, "http://"+s.addr+path, rd)
 		if err != nil {
 			cancel()
 			return httpResult{Err: err}
+		}
+		if framing == framingExpect100 && body != nil {
+			req.Header.Set("Expect", "100-continue")
 		}
 		if body != nil {
 			req.Header.Set("Content-Type", "application/json")
